@@ -956,11 +956,16 @@ func genProgram(rng *rand.Rand, name string) *Program {
 var echoFunctions = os.Getenv("VERIF_ECHO") == "1"
 
 var junkInputs = []string{"", " ", "\x00", "\xff\xfe", "*", "_", "<", ">", "+", "+1", "-1", "é", strings.Repeat("1", 255), strings.Repeat("1", 256), strings.Repeat("x", 300), "1 or 1=1", "\n1"}
+// accepted inputs that read as template actions: the invalid-input message carries the input into the page template
+var junkTemplate = []string{"9{{", "1{{}}", "a{{ if", "2{{.x}}", "7}}", "1{{end}}", "0{{template \"x\"}}", "3{{/*"}
 var junkNonUtf8 = []string{"1\xff", "bob\xc3", "a\x00b", "7\xf0\x9f", "x\xed\xa0\x80"}
 
 func pickInput(rng *rand.Rand, p *Program) string {
 	if rng.Intn(8) == 0 {
 		if echoFunctions && rng.Intn(3) == 0 {
+			if rng.Intn(2) == 0 {
+				return junkTemplate[rng.Intn(len(junkTemplate))]
+			}
 			return junkNonUtf8[rng.Intn(len(junkNonUtf8))]
 		}
 		return junkInputs[rng.Intn(len(junkInputs))]
